@@ -780,6 +780,9 @@ class NetworkGraph(AbstractBaseIR):
                 s_str = svar
                 sidx_str = 'source_idx'
                 tidx_str = 'target_idx'
+            if s_str == t_str:
+                # a source variable that is called like the target variable gets a name of its own inside the edge operator
+                s_str = f'{svar}_source{i}'
 
             # case 0g: global edge — weight is a 0-d (scalar) array (used by
             # Connectivity for uniform all-to-all coupling). Realized as a reduction
